@@ -24,7 +24,7 @@ def main (args : List String) : IO UInt32 := do
   | ["prim"] => Driver.lineLoop Driver.Prim.step (); return 0
   | ["disk", "mem"] => Driver.lineLoop Driver.Disk.memStep none; return 0
   | ["disk", "file"] => Driver.lineLoop Driver.Disk.fileStep none; return 0
-  | ["disk", "sw"] => Driver.lineLoop Driver.Disk.swStep (); return 0
+  | ["disk", "sw"] => Driver.lineLoop Driver.Disk.swsrStep (); return 0
   | ["disk", "spec"] => Driver.lineLoop Driver.Disk.specStep none; return 0
   | ["fs", "ref"] => Driver.lineLoop Driver.Fs.refStepX GooseVerif.Model.Fs.Ref.empty; return 0
   | ["fs", "mem"] => Driver.lineLoop Driver.Fs.memStep GooseVerif.Model.Fs.MemFs.empty; return 0
